@@ -45,19 +45,29 @@ size_t fread(void *p, size_t sz, size_t n, FILE *f)
 	return sz ? got / sz : 0;
 }
 #ifndef NATIVE_REPLAY
-/* libc model for the one conversion archive.c uses: sscanf(s, "%8lu ", &idx) -- up to 8 decimal digits */
-static int v_scan_lu8(const char *s, unsigned long *out);
+/* libc model for the conversion family archive.c uses: sscanf(s, "%<w>l<c> ", &n) with w one decimal digit and
+ * c in {u, o, x}: up to w digits of radix 10 / 8 / 16 (the radix is READ FROM THE FORMAT, so that a format that says
+ * octal is modelled as octal) */
+static int v_scan_lu(const char *s, unsigned width, unsigned radix, unsigned long *out);
 int sscanf(const char *s, const char *fmt, ...)      /* (glibc's <stdio.h> renames this to __isoc99_sscanf) */
 {
-	va_list ap; unsigned long *out;
-	(void) fmt;
+	va_list ap; unsigned long *out; unsigned width = 8, radix = 10;
+	if (fmt[0] == '%' && fmt[1] >= '1' && fmt[1] <= '9' && fmt[2] == 'l') {
+		width = (unsigned) (fmt[1] - '0');
+		radix = fmt[3] == 'o' ? 8 : fmt[3] == 'x' ? 16 : 10;
+	}
 	va_start(ap, fmt); out = va_arg(ap, unsigned long *); va_end(ap);
-	return v_scan_lu8(s, out);
+	return v_scan_lu(s, width, radix, out);
 }
-static int v_scan_lu8(const char *s, unsigned long *out)
+static int v_scan_lu(const char *s, unsigned width, unsigned radix, unsigned long *out)
 {
-	unsigned long v = 0; int i, n = 0;
-	for (i = 0; i < 8 && s[i] >= '0' && s[i] <= '9'; i++) { v = v * 10 + (unsigned long)(s[i] - '0'); n = 1; }
+	unsigned long v = 0; unsigned i; int n = 0;
+	for (i = 0; i < 8 && i < width; i++) {
+		int c = s[i], dg;
+		dg = (c >= '0' && c <= '9') ? c - '0' : (c >= 'a' && c <= 'f') ? c - 'a' + 10 : (c >= 'A' && c <= 'F') ? c - 'A' + 10 : 99;
+		if (dg >= (int) radix) break;
+		v = v * radix + (unsigned long) dg; n = 1;
+	}
 	if (n) *out = v;
 	return n;
 }
@@ -103,6 +113,42 @@ void h_arRdItemArch(void)
 #endif
 	String r = arRdItemArch(ar);
 	CHECK("arRdItemArch: returns => a name, or a recorded diagnostic", r != 0 || g_err != 0);
+	VREACH();
+}
+
+/* C05 (archives lose nothing): a member whose header says "/<offset>" (decimal, as `ar` writes it) is given the name
+ * stored at that offset of the name table, up to the terminating '/' or newline.  Header numeric fields are "0";
+ * table: V_NAMES_MAX arbitrary bytes; offset: any decimal number of 1 or 2 digits inside the table. */
+void h_arIndirectName(void)
+{
+	V_INPUT_ARR(char, tbl, V_NAMES_MAX + 1); INPUT(unsigned, off); INPUT(unsigned, k);
+	UByte img[V_FILE_MAX]; int i;
+	ASSUME(off < V_NAMES_MAX);
+	for (i = 0; i < V_NAMES_MAX; i++) ASSUME(tbl[i] != 0);	/* a name table is text */
+	tbl[V_NAMES_MAX] = 0;
+	for (i = 0; i < 16; i++) img[i] = ' ';
+	img[0] = '/';
+	if (off >= 10) { img[1] = (UByte) ('0' + off / 10); img[2] = (UByte) ('0' + off % 10); } else img[1] = (UByte) ('0' + off);
+	for (i = 16; i < 58; i++) img[i] = (i % 2) ? ' ' : '0';
+	img[58] = 96; img[59] = 10;
+	memcpy(g_file, img, V_FILE_MAX); g_file_len = 60; g_file_pos = 0; g_err = 0; g_diag = 0;
+	Archive ar = (Archive) malloc(sizeof(*ar));
+#ifndef NATIVE_REPLAY
+	__CPROVER_assume(ar != 0);
+#else
+	memset(ar, 0, sizeof(*ar));
+#endif
+	ar->file = (FILE *) 0; ar->format = AR_Arch; ar->size = 60; ar->hasFile = 1; ar->item = 0; ar->pos = 0; ar->__next = 0; ar->name = 0;
+	ar->names = strAlloc(V_NAMES_MAX); memcpy(ar->names, tbl, V_NAMES_MAX);
+	String r = arRdItemArch(ar);
+	CHECK("indirect member name: found for an offset inside the table", r != 0);	/* (the 60-byte image has no next member: a diagnostic about that is not this job's business) */
+	/* ghost position k: the k-th character of the result is the (off+k)-th of the table, and the result ends exactly at the terminator */
+	if (r != 0) {
+		unsigned len = 0;
+		while (len < V_NAMES_MAX && off + len < V_NAMES_MAX && tbl[off + len] != '/' && tbl[off + len] != '\n') len++;
+		CHECK("indirect member name: length = distance to the terminator", strLength(r) == len);
+		CHECK("indirect member name: same characters as the table at that offset (ghost index)", !(k < len) || r[k] == tbl[off + k]);
+	}
 	VREACH();
 }
 
